@@ -339,6 +339,194 @@ PROPERTIES.update({
     },
 })
 
+
+
+NAMED_RANKERS = ["default", "zero", "max255", "identity", "reversed", "needle-common", "needle-rare", "perm1", "perm2", "perm3", "perm4"]
+# every weak order of ranks on a 3-letter alphabet (13) - for needles over
+# {a,b} only the first two digits matter (3 distinct behaviours)
+WEAK_ORDERS = ["000", "001", "010", "011", "012", "021", "100", "101", "102", "110", "120", "201", "210"]
+
+
+def ranked(rids, kinds=("ranked", "rankedall"), pres=("auto", "none")):
+    return ",".join("%s:%s:%s" % (k, r, p) for r in rids for k in kinds for p in pres if not (k == "rankedall" and p == "none"))
+
+
+PROPERTIES.update({
+    "C10": {
+        "engine": "ss",
+        "technique": "bounded-exhaustive enumeration of executions of the real code across builder configurations, each compared with the naive reference",
+        "rule": "a case is (needle, haystack, ranker, prefilter setting); rankers: 11 named ones plus EVERY weak order of ranks on the needle's alphabet for alphabets of <= 3 letters (pair selection only compares ranks, so these exhaust ranker behaviours for such needles)",
+        "explanation": "Finders built with FinderBuilder under every ranker x {Prefilter::Auto, Prefilter::None} are run (one-shot find and complete find_iter traversals) over E3 (weak-order rankers, all needles over {a,b,c}), E2pad (short needles: the ranker picks the pair of the vector searcher), LN (long needles: the ranker picks the prefilter's pair) and PF (prefilter-history haystacks built per (needle, ranker) from the pair that ranker selects, straddling the >= 50 calls / < 8 bytes-per-call frontier from both sides); every result must equal the naive reference, hence equal across configurations. The number of iterations that ended with the prefilter inert is read off the real iterator and reported.",
+        "assumptions": ASSUME_SUB[:2] + ["on this host the ranker reaches the AVX2 pair; the portable prefilter's absolute-rank cut-off is reached in the no-SIMD configuration (C09 matrix)"],
+        "jobs": [
+            ss("e", ranked(["wo:" + w for w in WEAK_ORDERS]), RESULT, "ss/E3/weak-order rankers", ["--letters", "abc", "--nmin", "2"], q=["--nmax", "4", "--hmax", "8"], t=["--nmax", "5", "--hmax", "10"]),
+            ss("epad", ranked(NAMED_RANKERS + ["wo:00", "wo:01", "wo:10"]), RESULT, "ss/E2pad/rankers", q=["--nmax", "3", "--hmax", "7"], t=["--nmax", "4", "--hmax", "10"]),
+            ss("ln", ranked(NAMED_RANKERS), RESULT, "ss/LN/rankers"),
+            ss("pf", None, RESULT, "ss/PF/rankers", q=["--rankers", ",".join(NAMED_RANKERS[:9])], t=["--rankers", ",".join(NAMED_RANKERS)]),
+        ],
+    },
+})
+
+
+
+def V(binname, variant, profile="release"):
+    return {"bin": binname, "variant": variant, "profile": profile}
+
+
+def K(binname, k, profile="release"):
+    return {"bin": "%s-%s" % (binname, k), "package": "checks-%s" % k, "profile": profile}
+
+
+K6_BUILD = {"bin": "tx", "package": "checks", "profile": "release", "target_dir": "/verif/harness/target-k6",
+            "env": {"RUSTFLAGS": "--cfg memchr_verif -C target-feature=+avx2"}}
+
+EXPECT = {
+    "k1": "sse2=true,avx2=true,neon=-,simd128=-",
+    "k4": "sse2=true,avx2=false,neon=-,simd128=-",
+    "k3": "sse2=false,avx2=false,neon=-,simd128=-",
+    "k7": "sse2=-,avx2=-,neon=true,simd128=-",
+    "k8": "sse2=-,avx2=-,neon=-,simd128=true",
+    "k9": "sse2=-,avx2=-,neon=-,simd128=-",
+    "k10": "sse2=-,avx2=-,neon=false,simd128=-",
+}
+
+
+def tx(name, build, expect, tiers=("quick", "thorough")):
+    return {"name": "tx/" + name, "build": build, "args": ["--tier", "{tier}", "--expect", expect], "classes": None, "tiers": tiers}
+
+
+def c09_post(results):
+    """All configurations must have produced the same transcript digest."""
+    digests = {}
+    for job, res in results:
+        d = res.get("extra", {}).get("digest")
+        if d:
+            digests.setdefault(d, []).append(job["name"])
+    if len(digests) > 1:
+        return [("[config_disagreement] configurations produced different transcripts: %s" % json_dumps(digests), {"class": "config_disagreement", "digests": digests})]
+    return []
+
+
+def json_dumps(x):
+    import json
+    return json.dumps(x, sort_keys=True)
+
+
+PROPERTIES.update({
+    "C09": {
+        "engine": "tx (one transcript, many builds of the crate)",
+        "technique": "bounded-exhaustive enumeration of executions of the real code in every build configuration / dispatcher outcome, each compared with the reference model and with each other (transcript digests)",
+        "rule": "a case is one call sequence of the transcript (memchr family incl. iterators on a placed haystack, or the memmem family on a needle/haystack pair); the same cases run in every configuration",
+        "explanation": "The same deterministic transcript - the top-level API only: memchr/2/3, memrchr/2/3, count, forward/reverse/double-ended iterators, memmem find/rfind, Finder, FinderRev, the no-prefilter finder, find_iter/rfind_iter sequences over full binary strings, sparse haystacks at real vector widths at every start offset, E2, padded cores, long structured needles and prefilter histories - is executed by separately built copies of the crate: K1 std/AVX2 (this host), K4 alloc-only (avx2::is_available() is constant false: the dispatcher's and meta searcher's SSE2-only branches), K5 no features, K6 compiled with +avx2, K12 logging feature, K3 x86_64 with the sse2 cfg switched off (fallback arm, SWAR, Two-Way for all needles, portable prefilter), K7 aarch64+neon and K8 wasm32+simd128 against emulated intrinsics, K9 'any other architecture', K10 aarch64 without neon; K1/K4/K5 also without debug assertions. Each process first asserts through the public is_available() functions that it is the configuration it claims to be. Every answer is compared with the naive reference, and all configurations must produce the same transcript digest.",
+        "assumptions": [
+            "K3/K7/K8/K9/K10 are mechanically cfg-rewritten scratch copies of the current /repo/src (rules in bin/archcopy.py; a rule that matches nothing is a machinery error)",
+            "NEON and simd128 run against emulated intrinsics (harness/emul/verif_emul.rs, written from the Arm ARM and the wasm SIMD spec) - trusted base",
+            "32-bit usize SWAR and big-endian mask handling cannot be produced on this host and are not covered",
+        ],
+        "post": c09_post,
+        "jobs": [
+            tx("K1 std, runtime AVX2", B("tx"), EXPECT["k1"]),
+            tx("K1 release profile", B("tx", "fast"), EXPECT["k1"]),
+            tx("K4 alloc only (SSE2-only outcome)", K("tx", "k4"), EXPECT["k4"]),
+            tx("K4 release profile", K("tx", "k4", "fast"), EXPECT["k4"]),
+            tx("K5 no features", K("tx", "k5"), EXPECT["k4"]),
+            tx("K5 release profile", K("tx", "k5", "fast"), EXPECT["k4"]),
+            tx("K6 -C target-feature=+avx2", K6_BUILD, EXPECT["k1"]),
+            tx("K12 logging feature", K("tx", "k12"), EXPECT["k1"]),
+            tx("K3 x86_64 without sse2", V("tx", "k3"), EXPECT["k3"]),
+            tx("K7 aarch64+neon (emulated)", V("tx", "k7"), EXPECT["k7"]),
+            tx("K8 wasm32+simd128 (emulated)", V("tx", "k8"), EXPECT["k8"]),
+            tx("K9 other architecture", V("tx", "k9"), EXPECT["k9"]),
+            tx("K10 aarch64 without neon", V("tx", "k10"), EXPECT["k10"]),
+        ],
+    },
+})
+
+
+
+# ---------------------------------------------------------------------------
+# The same engines under other dispatcher outcomes / emulated architectures.
+#   k4  alloc-only build  -> SSE2-only outcome of the dispatcher and of the
+#                            substring meta searcher
+#   k3  x86_64 w/o sse2   -> fallback arm: SWAR, Two-Way for every needle,
+#                            portable prefilter
+#   k7  aarch64+neon, k8 wasm32+simd128 (emulated intrinsics, loads monitored)
+#   k9  any other architecture (SWAR wiring)
+
+def vb(engine, k):
+    return K(engine, k) if k in ("k4", "k5", "k12") else V(engine, k)
+
+
+BS_SUBJ = {"k4": "sse2,top,swar", "k3": "swar,top", "k7": "neon,top", "k8": "simd128,top", "k9": "top,swar"}
+
+
+def bs_variants(ops, classes, ks=("k4", "k3", "k7", "k8", "k9")):
+    out = []
+    for k in ks:
+        out.append({"name": "bs[%s]/full/%s" % (k, ops), "build": vb("bs", k), "classes": classes,
+                    "args": ["full", "--tier", "{tier}", "--ops", ops, "--subjects", BS_SUBJ[k]],
+                    "tier_args": {"quick": ["--l1", "13", "--l2", "8", "--l3", "6"], "thorough": ["--l1", "18", "--l2", "11", "--l3", "9"]}})
+        out.append({"name": "bs[%s]/sparse/%s" % (k, ops), "build": vb("bs", k), "classes": classes,
+                    "args": ["sparse", "--tier", "{tier}", "--ops", ops, "--subjects", BS_SUBJ[k].replace(",swar", "").replace("swar,", "")],
+                    "tier_args": {"quick": ["--lmax", "100", "--ks", "1"], "thorough": ["--lmax", "230", "--ks", "2"]}})
+    return out
+
+
+FWD_K = {"k4": FWD + ",pp-sse2,pf-sse2", "k3": FWD + ",pf-portable,twoway", "k7": FWD + ",pp-neon,pf-neon", "k8": FWD + ",pp-simd128,pf-simd128", "k9": FWD}
+
+
+def ss_variants(subj_by_k, classes, tag, ks=("k4", "k3", "k7", "k8", "k9")):
+    out = []
+    for k in ks:
+        sub = subj_by_k[k] if isinstance(subj_by_k, dict) else subj_by_k
+        b = vb("ss", k)
+        out.append({"name": "ss[%s]/E2/%s" % (k, tag), "build": b, "classes": classes,
+                    "args": ["e", "--tier", "{tier}", "--subjects", sub, "--letters", "ab"],
+                    "tier_args": {"quick": ["--nmax", "5", "--hmax", "12"], "thorough": ["--nmax", "7", "--hmax", "15"]}})
+        out.append({"name": "ss[%s]/E2pad/%s" % (k, tag), "build": b, "classes": classes,
+                    "args": ["epad", "--tier", "{tier}", "--subjects", sub],
+                    "tier_args": {"quick": ["--nmax", "3", "--hmax", "7"], "thorough": ["--nmax", "4", "--hmax", "10"]}})
+        out.append({"name": "ss[%s]/LN/%s" % (k, tag), "build": b, "classes": classes,
+                    "args": ["ln", "--tier", "{tier}", "--subjects", sub]})
+    return out
+
+
+PP_K = {"k7": "pp-neon,pf-neon", "k8": "pp-simd128,pf-simd128", "k4": "pp-sse2,pf-sse2"}
+
+
+def pp_variants(classes, mode="pp-real", ks=("k7", "k8", "k4")):
+    return [{"name": "ss[%s]/%s" % (k, mode), "build": vb("ss", k), "classes": classes,
+             "args": [mode, "--tier", "{tier}", "--subjects", PP_K[k]]} for k in ks]
+
+
+for pid, ops in (("C01", "find"), ("C02", "rfind"), ("C07", "count")):
+    PROPERTIES[pid]["jobs"] += bs_variants(ops, RESULT)
+    PROPERTIES[pid]["explanation"] += " The same exploration is repeated on separately built copies of the crate: the SSE2-only dispatcher outcome (alloc-only build), the fallback outcome (x86_64 with sse2 cfg'd off), aarch64+NEON and wasm32+simd128 against emulated intrinsics (NeonMoveMask first/last offset and count, simd128 movemask), and the 'any other architecture' SWAR wiring."
+    PROPERTIES[pid]["assumptions"] = PROPERTIES[pid]["assumptions"] + ["NEON/simd128 run against emulated intrinsics (harness/emul/verif_emul.rs) in a mechanically cfg-rewritten copy of the current tree"]
+
+PROPERTIES["C03"]["jobs"] += ss_variants(FWD_K, RESULT, "fwd")
+PROPERTIES["C03"]["explanation"] += " Repeated under the other dispatcher outcomes and architectures (K4 SSE2-only packed pair and SSE2 prefilter; K3 no SIMD: Two-Way for every needle >= 2 and the portable prefilter; K7 NEON and K8 simd128 packed pair against emulated intrinsics; K9 other architecture)."
+PROPERTIES["C04"]["jobs"] += ss_variants(REV, RESULT, "rev", ks=("k3", "k7", "k9"))
+PROPERTIES["C04"]["explanation"] += " Repeated in the no-SIMD, emulated-NEON and other-architecture builds (memrchr routing for one-byte needles differs per backend)."
+PROPERTIES["C11"]["jobs"] += pp_variants(RESULT)
+PROPERTIES["C11"]["explanation"] += " NEON and simd128 prefilters run against emulated intrinsics; the SSE2 prefilter also in the SSE2-only build."
+PROPERTIES["C12"]["jobs"] += pp_variants(RESULT) + ss_variants({"k7": "pp-neon,twoway,rk", "k8": "pp-simd128,twoway,rk"}, RESULT, "blocks", ks=("k7", "k8"))
+PROPERTIES["C14"]["jobs"] += pp_variants(["panic"], "pp-panic", ks=("k7", "k8")) + [j for j in bs_variants("find,rfind,count", ["panic"], ks=("k7", "k8", "k3")) if "/full/" in j["name"]]
+PROPERTIES["C05"]["jobs"] += bs_variants("find,rfind,count", MEMORY, ks=("k7", "k8")) + pp_variants(MEMORY, ks=("k7", "k8")) + ss_variants({"k7": FWD_K["k7"] + "," + REV, "k8": FWD_K["k8"] + "," + REV}, MEMORY, "all", ks=("k7", "k8")) + [
+    {"name": "bs[k3]/guard", "build": V("bs", "k3"), "classes": MEMORY, "args": ["guard", "--tier", "{tier}", "--ops", "find,rfind,count", "--subjects", "swar,top"]},
+    {"name": "ss[k3]/E2/guard", "build": V("ss", "k3"), "classes": MEMORY, "args": ["e", "--tier", "{tier}", "--subjects", FWD + "," + REV + ",pf-portable,twoway,rtwoway", "--letters", "ab", "--places", GUARD, "--nmax", "5", "--hmax", "12"]},
+    {"name": "ss[k3]/LN/guard", "build": V("ss", "k3"), "classes": MEMORY, "args": ["ln", "--tier", "{tier}", "--subjects", FWD + "," + REV + ",pf-portable", "--places", GUARD]},
+]
+PROPERTIES["C05"]["explanation"] += " In the emulated aarch64/NEON and wasm32/simd128 builds every vector load of the real ISA modules reports to the same load monitor (exact bounds), and the simd128 aligned load is a real aligned dereference checked by rustc's alignment assertion; the no-SIMD build runs the guard-page placements through the SWAR code, Two-Way for short needles and the portable prefilter."
+PROPERTIES["C10"]["jobs"] += [
+    {"name": "ss[k3]/LN/rankers (portable prefilter, MAX_FALLBACK_RANK)", "build": V("ss", "k3"), "classes": RESULT, "args": ["ln", "--tier", "{tier}", "--subjects", ranked(NAMED_RANKERS)]},
+    {"name": "ss[k3]/PF/rankers", "build": V("ss", "k3"), "classes": RESULT, "args": ["pf", "--tier", "{tier}", "--rankers", ",".join(NAMED_RANKERS)]},
+    {"name": "ss[k3]/E2pad/rankers", "build": V("ss", "k3"), "classes": RESULT, "args": ["epad", "--tier", "{tier}", "--subjects", ranked(NAMED_RANKERS[:7]), "--nmax", "3", "--hmax", "6"]},
+    {"name": "ss[k4]/LN/rankers (SSE2 prefilter)", "build": K("ss", "k4"), "classes": RESULT, "args": ["ln", "--tier", "{tier}", "--subjects", ranked(NAMED_RANKERS)]},
+    {"name": "ss[k4]/PF/rankers", "build": K("ss", "k4"), "classes": RESULT, "args": ["pf", "--tier", "{tier}", "--rankers", ",".join(NAMED_RANKERS)]},
+]
+PROPERTIES["C10"]["explanation"] += " Repeated in the no-SIMD build (K3: every ranker reaches the portable prefilter and its absolute-rank cut-off) and the SSE2-only build (K4)."
+
 HOOK_COMMITS = ["ffdf165", "556bbde", "0f24165", "8fa21ee"]
 
 ENGINES = [
@@ -353,6 +541,9 @@ ENGINES.append({"name": "it", "path": "/verif/harness/checks/src/bin/it/", "serv
 
 ENGINES.append({"name": "loomcheck", "path": "/verif/harness/loomcheck/src/main.rs", "serves_properties": ["C15"],
                 "kind_free_text": "loom exploration of all interleavings of first/subsequent calls through the real AtomicPtr dispatch cells"})
+
+ENGINES.append({"name": "tx", "path": "/verif/harness/checks/src/bin/tx.rs", "serves_properties": ["C09"],
+                "kind_free_text": "top-level-API transcript compiled against every configuration of the crate (path-manifests, RUSTFLAGS, arch-rewritten copies with emulated intrinsics)"})
 
 NOT_CLAIMED = {}
 
